@@ -81,8 +81,13 @@ def c15(ck, replay=None):
     nb = len(behs)
     allb = behs + bare
     items = []
+    # (a class whose own __reduce__ carries __cause__ keeps a remote traceback even through a BARE hop - better than the
+    # default pickling the spec's BareHop models - so it takes part in the documented protocol only)
+    NOT_BARE = {'keepcause'}
     for bi, b in enumerate(allb):
         for ci, key in enumerate(RB.CATALOGUE):
+            if bi >= nb and key in NOT_BARE:
+                continue
             depths = (1, 5) if thorough else ((1, 5)[(bi + ci) % 2],)
             for depth in depths:
                 items.append({'beh': bi, 'key': key, 'seed': rnd.randrange(1 << 30), 'depth': depth, 'mode': 'pickle'})
@@ -93,6 +98,8 @@ def c15(ck, replay=None):
     for bi, b in enumerate(allb):
         keys = RB.CATALOGUE if thorough else [RB.CATALOGUE[(bi + j * 7 + ck.seed) % len(RB.CATALOGUE)] for j in range(2)]
         for key in keys:
+            if bi >= nb and key in NOT_BARE:
+                continue
             pitems.append({'beh': bi, 'key': key, 'seed': rnd.randrange(1 << 30), 'depth': rnd.choice((1, 5)),
                            'mode': 'proc'})
     rnd.shuffle(pitems)
